@@ -14,16 +14,17 @@ def prop(pid, title, level, units, clauses, explanation, statement_clauses=None,
 
 
 prop("C16", "rustfmt never terminates abnormally", "other",
-     ["U01", "U02", "U03", "U06", {"unit": "U04", "only": r"does not panic|FormatReportFormatter"}, {"unit": "U07", "only": r"does not panic"}, {"unit": "U09", "only": r"does not panic"}],
+     ["U01", "U02", "U03", "U06", {"unit": "U04", "only": r"does not panic|FormatReportFormatter"}, {"unit": "U07", "only": r"does not panic"}, {"unit": "U09", "only": r"does not panic"}, "U28", {"unit": "U18", "only": r"does not panic"}],
      [{"clause": "no arithmetic panic (overflow) in Range::{new,is_empty,contains,intersects,adjacent_to,merge} for any usize", "status": "proved", "by": "U01 (Verus)"},
       {"clause": "no arithmetic panic in FormatLines::{new_line,char,push_err,should_report_error} and the fold (line_len -= 1 never underflows: invariant last_was_space => line_len >= 1) for texts of any length, tab_spaces >= 1", "status": "proved", "by": "U03 (Verus)"},
       {"clause": "no overflow / division by zero in Indent and Shape arithmetic under wf (fields <= 2^32, tab_spaces >= 1); every *_opt turns 'does not fit' into None (is_none <=> delta > width)", "status": "proved", "by": "U06 (Verus; Kani for mut-self fns and the Option::map payloads)"},
       {"clause": "no panic in normalize_ranges / FileLines queries / FromStr, format_lines, Indent::to_string (80-column buffer seam), push_vertical_spaces on the enumerated domains (overflow checks on, panics caught per case)", "status": "bounded", "by": "U02, U04, U07, U09 (native)"},
       {"clause": "printing the diagnostics (FormatReportFormatter over annotate-snippets) never panics, for every report format_lines can produce on the domain (tabs, multi-byte characters)", "status": "bounded", "by": "U04 (native; whole file format_report_formatter.rs with the real annotate-snippets)"},
-      {"clause": "catch_unwind containment around the rustc parser and macro formatting; stack depth; ~900 unchecked arithmetic sites inside rewriters", "status": "not_decided", "by": "-"}],
+      {"clause": "a panic inside the Rust parser (incl. the fatal lexer errors raised while the parser is created) is contained and reported as an ordinary failure of the input", "status": "bounded", "by": "U28 (complete over {ok, diagnostics, panic} x {ok, Err, panic} x error flags)"},
+      {"clause": "remaining catch_unwind containment (macro formatting, format_snippet around doc-comment code blocks and macro formatting; stack depth; ~900 unchecked arithmetic sites inside rewriters", "status": "not_decided", "by": "-"}],
      "Absence of arithmetic panics is discharged by Verus as machine-integer overflow obligations on the verbatim text of the listed functions (all inputs). "
      "Bounded units run the natively compiled real text with overflow checks and catch every panic as a failed obligation. The bulk of C16 (parser containment, stack depth, rewriters) is not decided by this technique.",
-     statement_clauses={"U01": "it does not panic (C16) — arithmetic overflow is a panic in the test-profile binary", "U02": "it does not panic (C16)", "U03": "it does not panic", "U06": "it does not panic", "U04": "it does not panic", "U07": "it does not panic", "U09": "it does not panic"},
+     statement_clauses={"U01": "it does not panic (C16) — arithmetic overflow is a panic in the test-profile binary", "U02": "it does not panic (C16)", "U03": "it does not panic", "U06": "it does not panic", "U04": "it does not panic", "U07": "it does not panic", "U09": "it does not panic", "U28": "a panic inside the Rust parser ... is contained and reported as an ordinary failure of that input", "U18": "it does not panic"},
      assumptions=["64-bit target (global size_of usize == 8)"])
 
 prop("C17", "file_lines confines changes to the selected code", "other",
@@ -82,17 +83,20 @@ prop("C15", "Output is a function of source and configuration only", "other",
      assumptions=["Session is a shim holding the real fields read by the extracted functions (config, errors, out); Config is two opaque words", "Session::format is a harness-chosen outcome"])
 
 prop("C05", "A failing run never damages source files", "other",
-     ["U05", {"unit": "U16", "exclude": r"^FilesWithBackupEmitter"}, "U23"],
+     ["U05", {"unit": "U16", "exclude": r"^FilesWithBackupEmitter"}, "U23", "U26", "U28"],
      [{"clause": "the exit status is 1 whenever a parsing or operational error was recorded; an Err from formatting a root is folded into the session as an operational error and later roots are still processed", "status": "proved", "by": "U05 (Kani, complete)"},
       {"clause": "a file is only ever replaced by its complete formatted text, and only if it differs (FilesEmitter: exactly one fs::write of the whole text, iff original != formatted)", "status": "bounded", "by": "U16 (native, complete w.r.t. the FS model)"},
       {"clause": "only --emit files reaches the file system (create_emitter table + token scan of the other emitters)", "status": "bounded", "by": "U16 + frame scan"},
       {"clause": "parse of the root and resolution of every reached module complete before the first file is formatted/emitted; a parse error, resolution error or failing parse session formats nothing; a parse error sets has_parsing_errors and is merged into the session; a required_version mismatch is an error before anything runs", "status": "bounded", "by": "U23 (real format_project / format_input_inner on event-recording shims, complete over the decision domain, <= 2 files)"},
+      {"clause": "the top-level parse returns Ok only if the parser could be created, the parse succeeded and no error is left (errors may be forgiven only when they are resettable); parser panics are contained", "status": "bounded", "by": "U28 (real ParserBuilder::build / Parser::parse_crate on shims whose every entry point may succeed, fail or panic; complete over the outcome combinations)"},
+      {"clause": "errors may be reset only if every diagnostic seen was a recoverable error in an ignored file: once a non-ignorable error has been emitted can_reset stays false, whatever came before or after (SilentOnIgnoredFilesEmitter, real rustc_errors types)", "status": "bounded", "by": "U26 (all sequences of <= 3/4 diagnostics over 6 kinds)"},
       {"clause": "the rustc parser and ModResolver report every fault of the input (syntax error in any reached module, both foo.rs and foo/mod.rs, ...); malformed configuration", "status": "not_decided", "by": "-"}],
      "Decided: the exit-code and error-folding clauses (proved on the extracted statements), the 'only complete text, only if different' clause of the files emitter, and the ordering 'parse and resolve everything, then format' of format_project. "
      "Not decided: that rustc's parser / ModResolver detect every fault.",
      statement_clauses={"U05": "a diagnostic is printed and the exit status is 1. Other roots named on the same command line are still formatted",
                         "U16": "a file is only ever replaced by its complete formatted text",
-                        "U23": "If the input cannot be processed (...), rustfmt writes nothing for that crate root"})
+                        "U23": "If the input cannot be processed (...), rustfmt writes nothing for that crate root",
+                        "U26": "syntax error ... in any out-of-line module it reaches ... writes nothing ... exit status is 1", "U28": "syntax error in the root file ... exit status is 1"})
 
 prop("C06", "Check mode is read-only and exact; all emit modes agree on the text", "other",
      ["U05", {"unit": "U16", "exclude": r"^FilesWithBackupEmitter"}, {"unit": "U25", "only": r"--check|--backup"}, {"unit": "U15", "only": r"^DiffEmitter"}],
@@ -122,17 +126,18 @@ prop("C12", "Diff-based reports reconstruct the formatted text exactly", "explor
      assumptions=["diff::lines yields a correct edit script (dependency, trusted)", "serde_json produces well-formed JSON", "a text is its lines joined by \\n; the empty text has no line"])
 
 prop("C08", "Emitted text obeys the whitespace and newline discipline", "other",
-     ["U08", "U07", "U09", "U06", {"unit": "U04", "only": r"^format_lines: trailing newline"}],
+     ["U08", "U07", "U09", "U06", {"unit": "U04", "only": r"^format_lines: trailing newline"}, "U27"],
      [{"clause": "all line terminators follow newline_style (Unix: no CRLF; Windows: every LF preceded by CR; Auto: style of the first terminator of the input; Native = Unix here); converting changes nothing but the terminators; conversions idempotent", "status": "bounded", "by": "U08 (native, all strings <= 6/8 over {a,CR,LF} x 4 styles x raw inputs <= 3/4)"},
       {"clause": "ends with exactly one line terminator: append_newline appends one LF; format_lines truncates a trailing newline run to one", "status": "bounded", "by": "U08 + U04"},
       {"clause": "newline_count equals the length of the trailing newline run for texts of any length (fold invariant)", "status": "proved", "by": "U03 (Verus, see C07)"},
       {"clause": "never more than blank_lines_upper_bound blank lines pushed between items/statements; at least lower_bound; line_number bookkeeping; idempotent", "status": "bounded", "by": "U09 (native; buffers x counts 0..8 x bounds 0..4)"},
       {"clause": "indentation text: spaces only (hard_tabs off) or block_indent/tab_spaces tabs followed by alignment spaces (hard_tabs on); the 80-column static-buffer seam", "status": "bounded", "by": "U07 (native, exhaustive to 200/400 columns, tab_spaces 1..8)"},
       {"clause": "Indent built by from_width/block_indent/block_unindent keeps block_indent a multiple of tab_spaces and width() as requested", "status": "proved", "by": "U06 (Verus all usize; Kani for the mut-self fns)"},
-      {"clause": "does not start with a blank line; at most one blank line inside lists; every emitter of indentation goes through Indent::to_string", "status": "not_decided", "by": "-"}],
+      {"clause": "does not start with a blank line: skip_empty_lines moves past exactly the maximal run of leading whitespace-only lines before anything is emitted", "status": "bounded", "by": "U27 (real skip_empty_lines / SnippetProvider / find_uncommented with real rustc_span types; all texts <= 6/8 over 5 characters, two base offsets)"},
+      {"clause": "at most one blank line inside lists; every emitter of indentation goes through Indent::to_string; the byte-0 guard of format_missing_inner", "status": "not_decided", "by": "-"}],
      "Mixture of proved arithmetic (U06/U03) and bounded-exhaustive checks of the string-producing functions (newline conversion, indentation text, vertical-space clamp), which no deductive back end here can execute symbolically.",
      statement_clauses={"U08": "all of its line terminators follow newline_style ..., and converting the style changes nothing but the terminators", "U09": "there are never more than blank_lines_upper_bound blank lines",
-                        "U07": "every line is indented with spaces only (hard_tabs off) or with tabs followed only by alignment spaces (hard_tabs on)", "U06": "indentation arithmetic", "U04": "the emitted text ends with exactly one line terminator"},
+                        "U07": "every line is indented with spaces only (hard_tabs off) or with tabs followed only by alignment spaces (hard_tabs on)", "U06": "indentation arithmetic", "U04": "the emitted text ends with exactly one line terminator", "U27": "does not start with a blank line"},
      assumptions=["U08 precondition: no CR immediately before CRLF in the formatted buffer (the pipeline strips bare CRs earlier)", "FmtVisitor is a shim {buffer, line_number, config}"])
 
 prop("C14", "Configuration is resolved with the documented precedence", "other",
